@@ -634,7 +634,9 @@ func (x *Exec) pureCall(f *ssa.Function, args []Val, st *State) []Val {
 		sh := shape(rt)
 		v := Val{T: rt, L: make([]Term, len(sh))}
 		for j, l := range sh {
-			v.L[j] = x.c.App(fmt.Sprintf("pure_%s_%d_%s", f.String(), k, l.Path), l.Sort, ts...)
+			// the heap arrays passed depend on which heap keys are known so far, so the
+			// arity is part of the symbol (calls with different footprints are unrelated)
+			v.L[j] = x.c.App(fmt.Sprintf("pure_%s_%d_%s_a%d", f.String(), k, l.Path, len(ts)), l.Sort, ts...)
 		}
 		out = append(out, v)
 	}
